@@ -22,6 +22,8 @@ type runner struct {
 	res  *hx.Result
 	core hx.CaseFile
 	rx   hx.CaseFile
+	muc  hx.CaseFile
+	ibb  hx.CaseFile
 }
 
 // ---- generators for the core hand-off ----
@@ -306,6 +308,8 @@ func main() {
 	x := &runner{o: o, res: res}
 	x.core = hx.CaseFile{Name: "core", Imports: imports, Ok: "case_ok", Type: "tcase"}
 	x.rx = hx.CaseFile{Name: "rx", Imports: importsExt, Ok: "rx_case_ok", Type: "rxcase"}
+	x.muc = hx.CaseFile{Name: "muc", Imports: importsExt, Ok: "muc_case_ok", Type: "muccase"}
+	x.ibb = hx.CaseFile{Name: "ibb", Imports: importsExt, Ok: "ibb_case_ok", Type: "ibbcase"}
 	xmpp.VerifSetHook(hookDispatch)
 	r := hx.NewRand(o.Seed)
 
@@ -340,6 +344,16 @@ func main() {
 			var cc rxCase
 			json.Unmarshal(rp.Case, &cc)
 			x.rxReplay(cc.Actions, "replay")
+		case "muc":
+			var cc mucCase
+			json.Unmarshal(rp.Case, &cc)
+			x.mucReplay(cc.Actions, "replay")
+		case "ibb":
+			var cc ibbCase
+			json.Unmarshal(rp.Case, &cc)
+			x.ibbReplay(cc.Actions, "replay")
+		case "ibb-expect":
+			x.ibbExpectStall()
 		}
 	} else {
 		for _, acts := range coreCorpus {
@@ -348,6 +362,13 @@ func main() {
 		for _, acts := range rxCorpus {
 			x.rxReplay(acts, "corpus")
 		}
+		for _, acts := range mucCorpus {
+			x.mucReplay(acts, "corpus")
+		}
+		for _, acts := range ibbCorpus {
+			x.ibbReplay(acts, "corpus")
+		}
+		x.ibbExpectStall()
 		walks, budget := 400, 600
 		if o.Thorough() {
 			walks, budget = 5000, 6000
@@ -371,6 +392,10 @@ func main() {
 		for i := 0; i < walks/2; i++ {
 			x.rxWalk(r.Fork(), 1+r.Intn(3), 6+r.Intn(24))
 		}
+		for i := 0; i < walks/4; i++ {
+			x.mucWalk(r.Fork(), 4+r.Intn(16))
+			x.ibbWalk(r.Fork(), 4+r.Intn(16))
+		}
 	}
 	res.Rule = "forced schedules of the hand-off between blocking Send*/Encode*/Unmarshal*/Iter* calls and the serve loop: corpus, " +
 		"stateless enumeration of all interleavings for small configurations, seeded random walks (up to 4 concurrent calls, duplicate ids, " +
@@ -378,6 +403,8 @@ func main() {
 		"non-trivial = the schedule contains a hand-off, a context exit or a drained offer"
 	res.CaseFiles = append(res.CaseFiles, x.core.Write(o.Out, 400)...)
 	res.CaseFiles = append(res.CaseFiles, x.rx.Write(o.Out, 400)...)
-	res.Extra["model_cases"] = x.core.Len() + x.rx.Len()
+	res.CaseFiles = append(res.CaseFiles, x.muc.Write(o.Out, 400)...)
+	res.CaseFiles = append(res.CaseFiles, x.ibb.Write(o.Out, 400)...)
+	res.Extra["model_cases"] = x.core.Len() + x.rx.Len() + x.muc.Len() + x.ibb.Len()
 	res.Write(o.Out)
 }
